@@ -10,7 +10,7 @@
    exact-integer specification. *)
 From Coq Require Import ZArith QArith Rdefinitions.
 From Verif Require Import Base.Int64 Base.Rha Base.RhaProofs Num.Amount Num.AmountProofs.
-From Verif Require Import Num.AmountImpl Num.AmountExact.
+From Verif Require Import Num.AmountImpl Num.AmountExact Num.AmountOrder.
 Open Scope Z_scope.
 
 (* rha n d is THE nearest integer to n/d, a tie going to the larger magnitude *)
@@ -214,3 +214,37 @@ Theorem exponent_guard_is_needed_refuted :
     impl_mul a b <> Defined (mul a b) /\ impl_rescale b 0 <> Defined (rescale b 0).
 Proof. exists (mkA 0 0), (mkA 0 64). vm_compute. repeat split; discriminate. Qed.
 Print Assumptions exponent_guard_is_needed_refuted.
+
+(* ---- order: rounding half away from zero never reverses an order (Num/AmountOrder.v) ---- *)
+
+(* the rounded quotient is monotone in the numerator, for every positive divisor *)
+Theorem rounding_is_monotone n m d : 0 < d -> n <= m -> rha n d <= rha m d.
+Proof. exact (rha_monotone n m d). Qed.
+Print Assumptions rounding_is_monotone.
+
+(* the rounded quotient is within half a unit of the exact one *)
+Theorem rounding_error_at_most_half_unit n d : 0 < d -> Z.abs (2 * (n - rha n d * d)) <= d.
+Proof. exact (rha_half_unit n d). Qed.
+Print Assumptions rounding_error_at_most_half_unit.
+
+(* rescaling (either direction) keeps the weak order of two amounts of one precision *)
+Theorem rescale_keeps_order a b e :
+  exp a = exp b -> val a <= val b -> val (rescale a e) <= val (rescale b e).
+Proof. exact (rescale_monotone_same_exp a b e). Qed.
+Print Assumptions rescale_keeps_order.
+
+(* rescaling twice to the same precision is rescaling once *)
+Theorem rescale_is_idempotent a e : rescale (rescale a e) e = rescale a e.
+Proof. exact (rescale_idempotent a e). Qed.
+Print Assumptions rescale_is_idempotent.
+
+(* a precision reduction moves the value by at most half a unit of the new precision *)
+Theorem rescale_down_error_at_most_half_unit a e : (e <= exp a)%nat ->
+  Z.abs (2 * (val a - val (rescale a e) * pow10 (exp a - e))) <= pow10 (exp a - e).
+Proof. exact (rescale_down_error a e). Qed.
+Print Assumptions rescale_down_error_at_most_half_unit.
+
+(* adding a non-negative amount of ANY precision never decreases the receiver *)
+Theorem add_nonnegative_never_decreases a b : 0 <= val b -> val a <= val (add a b).
+Proof. exact (add_monotone a b). Qed.
+Print Assumptions add_nonnegative_never_decreases.
